@@ -163,6 +163,9 @@ def check_metamodule(res, c):
     cl = m.clone()
     for path, a, b in snapshot.diff(S_syn, build.norm_module(snapshot.snap_module(cl, "synth"), "after"))[:3]:
         res.violation(f"C15:clone:{snapshot.field_key(path)}", f"clone {path}: original {a}, clone {b}", desc)
+    if c.index % 3 == 0 and len(raw) < 40000:
+        siblings(res, m, desc)
+    recount(res, m, desc)
     p = api.Project()
     p.attach_module(m)
     S_proj = build.norm_module(snapshot.snap_module(m, "project"), "before")
@@ -176,6 +179,80 @@ def check_metamodule(res, c):
     res.count("project_roundtrips")
     for path, a, b in snapshot.diff(S_proj, build.norm_module(snapshot.snap_module(p2.modules[1], "project"), "after"))[:3]:
         res.violation(f"C15:project:{snapshot.field_key(path)}", f"in-project {path}: before {a}, after {b}", desc)
+
+
+def siblings(res, m, desc):
+    """Two MetaModules with byte-identical embedded projects in one file are still two MetaModules after loading."""
+    import rv.api as api
+    p = api.Project()
+    a, b = m.clone(), m.clone()
+    p.attach_module(a)
+    p.attach_module(b)
+    try:
+        q = workload.load(p.read())
+    except Exception as e:
+        res.violation(f"C15:project-unloadable:{workload.exc_key(e)}", f"project with two copies of the MetaModule does not load: {e!r}", desc)
+        return
+    res.count("sibling_pairs")
+    x, y = q.modules[1], q.modules[2]
+    before = build.norm_module(snapshot.snap_module(y, "project"), "after")
+    if x.project is y.project:
+        res.count("observation_siblings_share_embedded_project_object")   # judged by behaviour below, not by identity
+    x.project.initial_bpm = (x.project.initial_bpm % 200) + 31
+    x.project.name = "edited sibling"
+    new = x.project.new_module(api.m.Amplifier, name="added to sibling")
+    x.project.connect(new, x.project.output)
+    for mod in x.project.modules[1:]:
+        if mod is not None:
+            mod.name = "renamed in sibling"
+            break
+    after = build.norm_module(snapshot.snap_module(y, "project"), "after")
+    for path, u, v in snapshot.diff(before, after)[:3]:
+        res.violation(f"C15:sibling-edit-leaks:{snapshot.field_key(path)}", f"editing the embedded project of one loaded MetaModule changed its sibling at {path}: {u} -> {v}", desc)
+
+
+def recount(res, m, desc):
+    """Exposing one more controller does not disturb the values the already exposed ones hold (they are stored state,
+    even when they differ from what the mapped target currently holds)."""
+    cl = m.clone()
+    n = cl.user_defined_controllers
+    if not 0 < n < 96:
+        return
+    changed = 0
+    for i in range(n):
+        name = f"user_defined_{i + 1}"
+        cur = cl.get_raw(name)
+        if not isinstance(cur, int):
+            continue
+        for cand in (cur + 1, cur - 1, 0, 1):
+            if cand == cur or cand < 0:
+                continue
+            try:
+                cl.set_raw(name, cand)
+            except Exception:
+                continue
+            if cl.get_raw(name) == cand:
+                changed += 1
+                break
+    if not changed:
+        return
+    res.count("recount_cases")
+    before = [cl.get_raw(f"user_defined_{i + 1}") for i in range(n)]
+    cl.user_defined_controllers = n + 1
+    after = [cl.get_raw(f"user_defined_{i + 1}") for i in range(n)]
+    if after != before:
+        moved = [i + 1 for i in range(n) if after[i] != before[i]]
+        res.violation("C15:recount-resets-values", f"raising the controller count {n} -> {n + 1} changed the stored values of controllers {moved[:6]} "
+                                                   f"({[before[i - 1] for i in moved[:6]]} -> {[after[i - 1] for i in moved[:6]]})", desc)
+        return
+    try:
+        again = cl.clone()
+    except Exception as e:
+        res.violation(f"C15:unloadable:{workload.exc_key(e)}", f"MetaModule does not load after raising the count: {e!r}", desc)
+        return
+    got = [again.get_raw(f"user_defined_{i + 1}") for i in range(n)]
+    if got != before:
+        res.violation("C15:synth:/payload/user_values[]", f"stored user values {before[:6]} load back as {got[:6]} after the count was raised", desc)
 
 
 def make_case(seed, index, tier, max_nest):
